@@ -617,7 +617,9 @@ class Translator:
             if t.elem.kind == 'func':
                 return CT('ptr', elem=CT('builtin', c='void', short='v'), short='fnptr')
             e = self.ct_of(t.elem, fctx, node, scope)
-            return CT('ptr', elem=e, short=('r' if t.kind == 'ref' else 'p') + e.short, ref=(t.kind == 'ref'))
+            # 'r' = reference to const, 'w' = reference to non-const (writable): keeps overloads on constness apart in C names
+            pre = 'p' if t.kind != 'ref' else ('r' if getattr(t.elem, 'const', False) else 'w')
+            return CT('ptr', elem=e, short=pre + e.short, ref=(t.kind == 'ref'))
         if t.kind == 'array':
             e = self.ct_of(t.elem, fctx, node, scope)
             return CT('array', elem=e, size=t.size, short='a%s_%s' % (e.short, t.size))
